@@ -4,6 +4,8 @@
 //!             others = `-` | <def>;<def>;...      definition of the layer `o.<k>` (k = position)
 //!             def    = S(<name>:<mods>/<layer>,...)   struct `S<k>` with these data members
 //!                    | A(<mods>/<layer>,<len>)        the array type `<elem>[len]` (only as the type of a variable / member)
+//!                    | R(<Kind>,<mods>/<layer>)       the resource type `Kind<elem>` (Buffer, RWStructuredBuffer, Texture2D, ...; only
+//!                                                     as the type of an extern global)
 //!             vars, funcs, ret as in C03.prog (local variable i is `v<i>`; user function prototypes `f<name>`)
 //!             body   = (block S ...)               the statements of `t` after the declarations of <vars>
 //!             S      = (expr E) | (ret) | (ret E) | (decl <ty> [I]) | (block S ...) | (if E S) | (ifelse E S S)
@@ -28,6 +30,8 @@ use super::*;
 pub enum OtherDef {
     Struct(Vec<(String, Ty)>),
     Array(Ty, u64),
+    /// `Kind<elem>`: a buffer / texture object with a subscript operator (only as the type of an extern global)
+    Resource(String, Ty),
 }
 
 #[derive(Clone, Debug)]
@@ -43,6 +47,7 @@ fn show_other(d: &OtherDef) -> String {
     match d {
         OtherDef::Struct(ms) => format!("S({})", ms.iter().map(|(n, t)| format!("{}:{}", n, show_ty(*t))).collect::<Vec<_>>().join(",")),
         OtherDef::Array(t, n) => format!("A({},{})", show_ty(*t), n),
+        OtherDef::Resource(k, t) => format!("R({},{})", k, show_ty(*t)),
     }
 }
 
@@ -57,6 +62,9 @@ fn parse_other(s: &str) -> Option<OtherDef> {
             }
         }
         Some(OtherDef::Struct(ms))
+    } else if s.starts_with("R(") && s.ends_with(')') {
+        let (k, t) = inner.split_once(',')?;
+        Some(OtherDef::Resource(k.to_string(), parse_ty(t)?))
     } else if s.starts_with("A(") && s.ends_with(')') {
         let (t, n) = inner.split_once(',')?;
         Some(OtherDef::Array(parse_ty(t)?, n.parse().ok()?))
@@ -123,6 +131,7 @@ impl EnvX {
             Layer::Other(k) => match self.others.get(k as usize)? {
                 OtherDef::Struct(_) => Some(format!("S{}", k)),
                 OtherDef::Array(..) => None,
+                OtherDef::Resource(..) => None,
             },
             _ => spell_base(l),
         }
@@ -148,6 +157,12 @@ impl EnvX {
                     return None;
                 }
                 Some(format!("{} {}[{}]", self.spell(*elem)?, name, n))
+            }
+            Some(OtherDef::Resource(kind, elem)) => {
+                if t.mods.0 & !1 != 0 {
+                    return None;
+                }
+                Some(format!("{}<{}> {}", kind, self.spell(*elem)?, name))
             }
             _ => Some(format!("{} {}", self.spell(t)?, name)),
         }
@@ -335,6 +350,7 @@ impl EnvX {
             match d {
                 OtherDef::Struct(ms) => ms.iter().for_each(|x| note(x.1.layer)),
                 OtherDef::Array(t, _) => note(t.layer),
+                OtherDef::Resource(_, t) => note(t.layer),
             }
         }
         if let Some(t) = self.base.ret {
@@ -405,8 +421,13 @@ impl EnvX {
                     if !self.is_const_decl(*v) {
                         return None;
                     }
+                    if let Some(OtherDef::Resource(..)) = self.other(v.layer) {
+                        s.push_str(&format!("{};\n", self.spell_decl(Ty { mods: Mods(0), layer: v.layer }, &name)?));
+                        continue;
+                    }
                     s.push_str(&format!("{};\n", self.spell_decl(self.without_const(*v), &name)?));
                 }
+                _ if matches!(self.other(v.layer), Some(OtherDef::Resource(..))) => return None,
                 's' => {
                     let d = self.spell_decl(*v, &name)?;
                     if self.is_const_decl(*v) {
@@ -463,6 +484,12 @@ impl<'a> DumpX<'a> {
             ir::TypeLayer::Array(inner, Some(n)) => {
                 let elem = self.describe(inner)?;
                 let k = self.env.others.iter().position(|d| *d == OtherDef::Array(elem, n))?;
+                Layer::Other(k as u32)
+            }
+            ir::TypeLayer::Object(o) => {
+                let (kind, inner) = resource_parts(&o)?;
+                let elem = self.describe(inner)?;
+                let k = self.env.others.iter().position(|d| *d == OtherDef::Resource(kind.to_string(), elem))?;
                 Layer::Other(k as u32)
             }
             _ => return describe(self.module, id, &|i| self.names.st(i)),
@@ -665,6 +692,41 @@ impl<'a> DumpX<'a> {
     }
 }
 
+/// the resources with a subscript operator: variant name and element type
+fn resource_parts(o: &ir::ObjectType) -> Option<(&'static str, ir::TypeId)> {
+    use ir::ObjectType::*;
+    Some(match o {
+        Buffer(t) => ("Buffer", *t),
+        RWBuffer(t) => ("RWBuffer", *t),
+        StructuredBuffer(t) => ("StructuredBuffer", *t),
+        RWStructuredBuffer(t) => ("RWStructuredBuffer", *t),
+        Texture2D(t) => ("Texture2D", *t),
+        RWTexture2D(t) => ("RWTexture2D", *t),
+        Texture2DArray(t) => ("Texture2DArray", *t),
+        RWTexture2DArray(t) => ("RWTexture2DArray", *t),
+        Texture3D(t) => ("Texture3D", *t),
+        RWTexture3D(t) => ("RWTexture3D", *t),
+        _ => return None,
+    })
+}
+
+fn resource_type(kind: &str, t: ir::TypeId) -> Option<ir::ObjectType> {
+    use ir::ObjectType::*;
+    Some(match kind {
+        "Buffer" => Buffer(t),
+        "RWBuffer" => RWBuffer(t),
+        "StructuredBuffer" => StructuredBuffer(t),
+        "RWStructuredBuffer" => RWStructuredBuffer(t),
+        "Texture2D" => Texture2D(t),
+        "RWTexture2D" => RWTexture2D(t),
+        "Texture2DArray" => Texture2DArray(t),
+        "RWTexture2DArray" => RWTexture2DArray(t),
+        "Texture3D" => Texture3D(t),
+        "RWTexture3D" => RWTexture3D(t),
+        _ => return None,
+    })
+}
+
 /// the statements of `t` after the declarations of the request's variables
 fn body_of<'m>(module: &'m ir::Module, nvars: usize) -> Option<&'m [ir::Statement]> {
     let id = module.function_registry.iter().find(|id| module.function_registry.get_function_name(*id) == "t")?;
@@ -692,6 +754,10 @@ impl<'a> BuildX<'a> {
                 Some(OtherDef::Array(elem, n)) => {
                     let inner = self.type_id(*elem)?;
                     reg.register_type(ir::TypeLayer::Array(inner, Some(*n)))
+                }
+                Some(OtherDef::Resource(kind, elem)) => {
+                    let inner = self.type_id(*elem)?;
+                    reg.register_type(ir::TypeLayer::Object(resource_type(kind, inner)?))
                 }
                 None if k as usize == self.env.others.len() => reg.register_type(ir::TypeLayer::Void),
                 None => return None,
@@ -1274,6 +1340,18 @@ pub fn proj_envx() -> ProjEnv {
         OtherDef::Array(cst(s0), 2),
         OtherDef::Array(cst(f3), 2),
         OtherDef::Array(cst(m22), 2),
+        OtherDef::Resource("StructuredBuffer".into(), plain(Layer::Vector(S_FLOAT, 4))), // o.11
+        OtherDef::Resource("RWStructuredBuffer".into(), plain(Layer::Vector(S_FLOAT, 4))), // o.12
+        OtherDef::Resource("StructuredBuffer".into(), s0),                               // o.13
+        OtherDef::Resource("RWStructuredBuffer".into(), s0),                             // o.14
+        OtherDef::Resource("Buffer".into(), f3),                                         // o.15
+        OtherDef::Resource("RWBuffer".into(), f),                                        // o.16
+        OtherDef::Resource("Texture2D".into(), plain(Layer::Vector(S_FLOAT, 4))),        // o.17
+        OtherDef::Resource("RWTexture2D".into(), plain(Layer::Vector(S_FLOAT, 4))),      // o.18
+        OtherDef::Resource("Texture3D".into(), f),                                       // o.19
+        OtherDef::Resource("RWTexture2DArray".into(), plain(Layer::Vector(S_FLOAT, 2))), // o.20
+        OtherDef::Resource("StructuredBuffer".into(), m22),                              // o.21
+        OtherDef::Resource("RWStructuredBuffer".into(), m32),                            // o.22
     ];
     // (non-const type, const type)
     let shapes: Vec<(Ty, Ty)> = vec![
@@ -1300,6 +1378,12 @@ pub fn proj_envx() -> ProjEnv {
             kinds.push(kind);
         }
     }
+    // resources: extern globals (implicitly const handles)
+    for k in 11..=22u32 {
+        bases.push((vars.len(), false));
+        vars.push(cst(plain(Layer::Other(k))));
+        kinds.push('g');
+    }
     // helpers: a bool and an int
     vars.push(plain(Layer::Scalar(S_BOOL)));
     kinds.push('l');
@@ -1318,6 +1402,15 @@ pub fn proj_envx() -> ProjEnv {
 }
 
 /// the projections that apply to a value of type `t`: (source form builder, type of the result, names a component twice)
+fn resource_index(kind: &str) -> Sx {
+    let u = |n: u32| ctor(plain(Layer::Vector(S_UINT, n)), vec![lit("UInt32"); n as usize]);
+    match kind {
+        "Texture2D" | "RWTexture2D" => u(2),
+        "Texture2DArray" | "RWTexture2DArray" | "Texture3D" | "RWTexture3D" => u(3),
+        _ => lit("IntLiteral"),
+    }
+}
+
 fn projections(env: &EnvX, t: Ty, deep: bool) -> Vec<(Box<dyn Fn(Sx) -> Sx>, Ty, bool)> {
     let mut v: Vec<(Box<dyn Fn(Sx) -> Sx>, Ty, bool)> = Vec::new();
     let m = |n: &'static str| -> Box<dyn Fn(Sx) -> Sx> { Box::new(move |e| mem(e, n)) };
@@ -1359,6 +1452,12 @@ fn projections(env: &EnvX, t: Ty, deep: bool) -> Vec<(Box<dyn Fn(Sx) -> Sx>, Ty,
                 }
             }
             Some(OtherDef::Array(elem, _)) => v.push((ix(), *elem, false)),
+            Some(OtherDef::Resource(kind, elem)) => {
+                // the element of a read-only resource is const, of a read-write one it is the element type itself
+                let i = resource_index(kind);
+                let rt = if kind.starts_with("RW") { *elem } else { cst(*elem) };
+                v.push((Box::new(move |e| idx(e, i.clone())), rt, false));
+            }
             None => {}
         },
         Layer::Enum(_) => {}
@@ -1378,7 +1477,9 @@ fn chains(env: &EnvX, e: &Sx, t: Ty, writable: bool, depth: u32, out: &mut Vec<(
             Some(OtherDef::Array(el, _)) => el.mods.0 & 1 != 0,
             _ => rt.mods.0 & 1 != 0,
         };
-        let w = writable && !dup && !elem_const;
+        // what is reached through a read-write resource is writable whatever the handle is
+        let through_rw = matches!(env.other(t.layer), Some(OtherDef::Resource(kind, _)) if kind.starts_with("RW"));
+        let w = (writable || through_rw) && !dup && !elem_const;
         out.push((pe.clone(), rt, w));
         if !dup {
             chains(env, &pe, rt, w, depth - 1, out);
